@@ -592,6 +592,17 @@ def run(ck, F, tier):
     from . import c06_state
     c06_state.run(ck, F)
 
+    # "the decoded picture reports exactly these [header] fields": after a successful call get_last_picture() is the picture just built from that header -
+    # still there after the clean-up, for disposable pictures too (C04's R1 accessor key, R2 last_picture := its key / inserted under it, R7 clean-up after the updates)
+    from . import c04
+    from ..report import Scoped
+    s04 = Scoped(ck, 'C04.')
+    c04.r1_accessors(s04, F)
+    try:
+        c04.r2_updates(s04, F)
+    except Unanalysable as e:
+        ck.unanalysable('C04.R2 final section', str(e))
+
 
 def pei(ck, F):
     name = P + 'decode_pei::{closure#0}'
